@@ -3,7 +3,9 @@ package checks
 import (
 	"bytes"
 	"crypto"
+	"encoding/asn1"
 	"fmt"
+	"math/big"
 	"testing"
 
 	"github.com/veraison/psatoken"
@@ -206,8 +208,8 @@ func otherKeys(kp keyPair) []crypto.PublicKey {
 }
 
 func TestC02_Splices(t *testing.T) {
-	st := NewStats("C02", "TestC02_Splices", "rapid: two signed tokens (same or different key / algorithm / claims); splice protected, payload or signature content between them; replace the signature by zeros, random bytes, the other token's signature, right-length wrong bytes; 1..8 random byte edits; protected header / payload re-encoded into different but equivalent bytes (non-preferred widths, long or indefinite map head, permuted keys) under the original signature; bytes appended to / cut from the payload or protected-header content with the length prefix adjusted; correctly signed envelopes that carry the algorithm only in the unprotected header or nowhere, a nil payload, an empty signature; verification with every other key (same type, other types, nil, non-keys). Oracle: independent splitter decides whether covered bytes changed; wrong key never verifies; alg-less/payload-less/signature-less never verify. Non-trivial = the altered token decodes; distinct = (alg, mutation kind, details)")
-	st.Require = []string{"splice-payload", "splice-protected", "splice-signature", "sig-zero", "sig-random", "byte-edits", "alg-unprotected-only", "alg-nowhere", "nil-payload", "empty-signature", "wrong-key", "decoded-verify-failed", "equiv-protected", "equiv-payload", "extend-payload", "extend-protected"}
+	st := NewStats("C02", "TestC02_Splices", "rapid: two signed tokens (same or different key / algorithm / claims); splice protected, payload or signature content between them; replace the signature by zeros, random bytes, the other token's signature, right-length wrong bytes, or other spellings of the same (r,s) (ASN.1 DER, DER plus junk, zero-padded / zero-stripped halves, doubled); 1..8 random byte edits; protected header / payload re-encoded into different but equivalent bytes (non-preferred widths, long or indefinite map head, permuted keys) under the original signature; bytes appended to / cut from the payload or protected-header content with the length prefix adjusted; correctly signed envelopes that carry the algorithm only in the unprotected header or nowhere, a nil payload, an empty signature; verification with every other key (same type, other types, nil, non-keys). Oracle: independent splitter decides whether covered bytes changed; wrong key never verifies; alg-less/payload-less/signature-less never verify. Non-trivial = the altered token decodes; distinct = (alg, mutation kind, details)")
+	st.Require = []string{"splice-payload", "splice-protected", "splice-signature", "sig-zero", "sig-random", "byte-edits", "alg-unprotected-only", "alg-nowhere", "nil-payload", "nil-payload-original-sig", "empty-signature", "wrong-key", "decoded-verify-failed", "equiv-protected", "equiv-payload", "extend-payload", "extend-protected", "sig-reencode"}
 	defer st.Flush(t)
 	rapid.Check(t, func(t *rapid.T) {
 		algA := rapid.SampledFrom([]int64{icose.EdDSA, icose.EdDSA, icose.ES256, icose.ES256, icose.PS256, icose.ES384, icose.ES512, icose.PS384, icose.PS512}).Draw(t, "algA")
@@ -218,7 +220,7 @@ func TestC02_Splices(t *testing.T) {
 			t.Fatalf("cannot sign: %v", err)
 		}
 		otherTrafficEvery(4)
-		kind := rapid.SampledFrom([]string{"splice-payload", "splice-protected", "splice-signature", "sig-zero", "sig-random", "sig-flip", "byte-edits", "alg-unprotected-only", "alg-nowhere", "nil-payload", "empty-signature", "wrong-key", "reencode", "equiv-protected", "equiv-protected", "equiv-payload", "extend-payload", "extend-payload", "extend-protected", "shrink-payload"}).Draw(t, "kind")
+		kind := rapid.SampledFrom([]string{"splice-payload", "splice-protected", "splice-signature", "sig-zero", "sig-random", "sig-flip", "byte-edits", "alg-unprotected-only", "alg-nowhere", "nil-payload", "nil-payload-original-sig", "nil-payload-original-sig", "empty-signature", "wrong-key", "reencode", "equiv-protected", "equiv-protected", "equiv-payload", "extend-payload", "extend-payload", "extend-protected", "shrink-payload", "sig-reencode", "sig-reencode"}).Draw(t, "kind")
 		var mut []byte
 		detail := ""
 		rebuild := func(prot, pay, sig []byte) []byte {
@@ -345,6 +347,41 @@ func TestC02_Splices(t *testing.T) {
 			} else {
 				mut = rebuild(a.Parts.Protected, alt, a.Parts.Signature)
 			}
+		case "sig-reencode":
+			// the same mathematical signature in OTHER bytes: ASN.1 DER of
+			// (r, s) as PKCS#11-style back-ends emit it, DER plus trailing
+			// junk, zero-padded or zero-stripped halves, the signature twice
+			sig := a.Parts.Signature
+			how := rapid.SampledFrom([]string{"der", "der+junk", "pad-left", "pad-halves", "strip-zeros", "twice", "append-zero"}).Draw(t, "how")
+			var alt []byte
+			half := len(sig) / 2
+			switch how {
+			case "der", "der+junk":
+				type rs struct{ R, S *big.Int }
+				der, derr := asn1.Marshal(rs{new(big.Int).SetBytes(sig[:half]), new(big.Int).SetBytes(sig[half:])})
+				if derr != nil {
+					t.Fatalf("VERIF-INFRA: %v", derr)
+				}
+				alt = der
+				if how == "der+junk" {
+					alt = append(alt, 0x00, 0x01)
+				}
+			case "pad-left":
+				alt = append([]byte{0, 0}, sig...)
+			case "pad-halves":
+				alt = append(append(append([]byte{0}, sig[:half]...), 0), sig[half:]...)
+			case "strip-zeros":
+				alt = append(bytes.TrimLeft(sig[:half], "\x00"), bytes.TrimLeft(sig[half:], "\x00")...)
+				if len(alt) == len(sig) {
+					alt = sig[1:]
+				}
+			case "twice":
+				alt = append(append([]byte{}, sig...), sig...)
+			default:
+				alt = append(append([]byte{}, sig...), 0)
+			}
+			mut = rebuild(a.Parts.Protected, a.Parts.Payload, alt)
+			detail = how
 		case "reencode":
 			// same covered bytes, different outer encoding: no verdict, but
 			// exercises the "covered-bytes-unchanged" path of the oracle
@@ -366,6 +403,14 @@ func TestC02_Splices(t *testing.T) {
 		case "nil-payload":
 			sig, _ := icose.Sign(algA, kpA.Priv, a.Parts.Protected, nil)
 			mut = icbor.Encode(icbor.Tag(18, icbor.Arr(icbor.Bstr(a.Parts.Protected), icbor.Map(), icbor.Null(), icbor.Bstr(sig))))
+		case "nil-payload-original-sig":
+			// the genuine token with its payload taken out (null, or empty),
+			// the genuine signature left in place
+			var pl *icbor.Node = icbor.Null()
+			if genBool.Draw(t, "emptybstr") {
+				pl = icbor.Bstr(nil)
+			}
+			mut = icbor.Encode(icbor.Tag(18, icbor.Arr(icbor.Bstr(a.Parts.Protected), icbor.Map(), pl, icbor.Bstr(a.Parts.Signature))))
 		case "empty-signature":
 			mut = rebuild(a.Parts.Protected, a.Parts.Payload, nil)
 		case "wrong-key":
@@ -386,13 +431,35 @@ func TestC02_Splices(t *testing.T) {
 		}
 		var msg, class string
 		switch kind {
-		case "alg-unprotected-only", "alg-nowhere", "nil-payload", "empty-signature":
+		case "alg-unprotected-only", "alg-nowhere", "nil-payload", "nil-payload-original-sig", "empty-signature":
 			ev, err := psatoken.DecodeEvidenceFromCOSE(mut)
 			class = "decode-failed"
 			if err == nil {
 				class = "decoded-verify-failed"
 				if ev.Verify(kpA.Pub) == nil {
 					msg = fmt.Sprintf("a message with %s VERIFIES: %x", kind, mut)
+				}
+			}
+			// the same message handed to an Evidence that already holds the
+			// genuine token / its claims: nothing from that earlier state may
+			// stand in for what the message lacks
+			for _, prior := range []string{"decoded-original", "claims-attached", "signed"} {
+				ev2 := &psatoken.Evidence{}
+				switch prior {
+				case "decoded-original":
+					_ = ev2.UnmarshalCOSE(a.Tok)
+				case "claims-attached":
+					if lit, ok := mA.BuildLiteral(); ok {
+						_ = ev2.SetClaims(lit)
+					}
+				default:
+					if lit, ok := mA.BuildLiteral(); ok {
+						_ = ev2.SetClaims(lit)
+						_, _ = ev2.ValidateAndSign(kpA.Signer())
+					}
+				}
+				if uerr := ev2.UnmarshalCOSE(mut); uerr == nil && ev2.Verify(kpA.Pub) == nil && msg == "" {
+					msg = fmt.Sprintf("a message with %s is accepted by an Evidence that previously held the genuine token (%s) and then VERIFIES: %x", kind, prior, mut)
 				}
 			}
 		default:
